@@ -147,7 +147,24 @@ def check(run: Run) -> None:
         add(t, "exec", "indent")
     for c in gens.indent(run):
         add(c["src"], "exec", "indent.tla:" + c["outcome"])
+    for c in gens.fmode(run):
+        if c["outcome"] == "ok":
+            add(c["src"] + "\n", "exec", "fmode.tla")
 
+    # 5. lexical corners the token-level generators cannot write: a number glued to a following word, a line that holds
+    #    nothing but a backslash continuation
+    import keyword
+
+    for kw in keyword.kwlist + keyword.softkwlist + ["a", "e", "x1", "_"]:
+        for num in ("1", "1.5", "0x1", "1j", "1e3", "0b1", "1_0", "0"):
+            for tmpl in ("x = {n}{k} y\n", "with {n}{k} x: pass\n", "[{n}{k} for x in y]\n", "raise {n}{k} x\n", "x = y if {n}{k} z\n", "f({n}{k})\n",
+                         "x = {n}{k}\n", "x = {n} {k}{n}\n"):
+                add(tmpl.format(n=num, k=kw), "exec", "glued")
+    for pre in ("", "y = 1\n", "if a:\n    b\n", "if a:\n    b\n    c\n", "def f():\n\treturn 1\n"):
+        for w1 in ("", " ", "  ", "    ", "\t"):
+            for w2 in ("", " ", "  ", "    ", "\t", "        "):
+                add(pre + w1 + "\\\n" + w2 + "x = 1\n", "exec", "contline")
+                add(pre + w1 + "\\\n" + w1 + "\\\n" + w2 + "x = 1\n", "exec", "contline")
     res = run_ops("c01", [{"src": c["src"], "mode": c["mode"]} for c in cases], limit=20.0)
     traces, invalid = [], 0
     for i, (c, r) in enumerate(zip(cases, res)):
